@@ -204,15 +204,15 @@ Qed.
 Lemma rstrip_cr_snoc : forall s, rstrip_cr (s ++ [13]) = rstrip_cr s.
 Proof. intros. unfold rstrip_cr. rewrite rev_app_distr. simpl. auto. Qed.
 
-(** HEAD's parser does not: the data field without the space is not a field. *)
+(** The original parser did not: the data field without the space was not a field. *)
 Lemma starts_with_app_same : forall a p s, starts_with (a ++ p) (a ++ s) = starts_with p s.
 Proof. induction a; intros; cbn [app starts_with]; auto. rewrite Z.eqb_refl. simpl. auto. Qed.
 
-Lemma field_head_needs_space : forall v,
+Lemma field_orig_needs_space : forall v,
   (forall v', v <> 32 :: v') ->
-  field cfg_head s_data (s_data ++ v) = None.
+  field cfg_orig s_data (s_data ++ v) = None.
 Proof.
-  intros v H. unfold field. cbn [c_opt_space cfg_head]. rewrite starts_with_app_same.
+  intros v H. unfold field. cbn [c_opt_space cfg_orig]. rewrite starts_with_app_same.
   destruct v as [|x v]; cbn [starts_with]; auto.
   destruct (32 =? x) eqn:E; cbn [andb]; auto. apply Z.eqb_eq in E. subst. exfalso. eapply H; eauto.
 Qed.
@@ -220,17 +220,139 @@ Qed.
 (* ------------------------------------------------------------------ *)
 (** * (c) exactly one terminal message per request                     *)
 (* ------------------------------------------------------------------ *)
-(** The sender state that corresponds to a phase of the request's life. *)
-Definition rel (rid : id) (ph : phase) (st : sender) : Prop :=
-  match ph with
-  | PhPosted => st = SPosting rid
-  | PhAnswered => exists a, st = SResolved rid a /\ is_terminal rid a = true
-  | PhAcked => st = SWaiting rid
-  | PhAnsweredAcked => exists a, st = SWoken rid a /\ is_terminal rid a = true
-  | PhDone => st = SIdle
+Lemma str_eqb_neq : forall a b, a <> b -> str_eqb a b = false.
+Proof. intros a b H. destruct (str_eqb a b) eqn:E; auto. apply str_eqb_eq in E. contradiction. Qed.
+
+Lemma str_eqb_false_neq : forall a b, str_eqb a b = false -> a <> b.
+Proof. intros a b H E. subst. rewrite str_eqb_refl in H. discriminate. Qed.
+
+Lemma has_key_here : forall k l, has_key k (k :: l) = true.
+Proof. intros. unfold has_key. simpl. rewrite str_eqb_refl. auto. Qed.
+
+Lemma has_key_drop_other : forall k k' l, k <> k' -> has_key k (drop_key k' l) = has_key k l.
+Proof.
+  intros k k' l H. unfold has_key, drop_key. induction l as [|x l IH]; simpl; auto.
+  destruct (str_eqb k' x) eqn:E; simpl.
+  - apply str_eqb_eq in E. subst x. rewrite (str_eqb_neq k k') by auto. simpl. auto.
+  - rewrite IH. auto.
+Qed.
+
+Lemma has_key_drop_sub : forall k k' l, has_key k (drop_key k' l) = true -> has_key k l = true.
+Proof.
+  intros k k' l. unfold has_key, drop_key. induction l as [|x l IH]; simpl; auto.
+  destruct (str_eqb k' x); simpl; intros H.
+  - rewrite IH by auto. apply orb_true_r.
+  - apply orb_prop in H. destruct H as [H|H]; [rewrite H; auto|]. rewrite IH by auto. apply orb_true_r.
+Qed.
+
+Lemma has_key_in : forall k l, has_key k l = true -> In k l.
+Proof.
+  intros k l H. unfold has_key in H. apply existsb_exists in H. destruct H as [x [Hx E]].
+  apply str_eqb_eq in E. subst. auto.
+Qed.
+
+(** The full-strength environment with the late answer switched on or off:
+    [allow = false] is exactly the property's environment [sched_ok]. *)
+Definition late_step_g (allow : bool) (rid : id) (s : late_state) (e : ev) : option late_state :=
+  match e with
+  | ESse (Some m) => if same_key rid m && is_done (fst s) && negb allow then None else late_step rid s e
+  | _ => late_step rid s e
   end.
 
-Definition owed (ph : phase) : nat := match ph with PhDone => 0%nat | _ => 1%nat end.
+Fixpoint late_run_g (allow : bool) (rid : id) (s : late_state) (evs : list ev) : option late_state :=
+  match evs with
+  | [] => Some s
+  | e :: r => match late_step_g allow rid s e with Some s' => late_run_g allow rid s' r | None => None end
+  end.
+
+Lemma late_step_g_true : forall rid s e, late_step_g true rid s e = late_step rid s e.
+Proof. intros. unfold late_step_g. destruct e as [| | | |[m|]]; auto. rewrite andb_false_r. auto. Qed.
+
+Lemma late_run_g_true : forall rid evs s, late_run_g true rid s evs = late_run rid s evs.
+Proof. induction evs as [|e evs IH]; intros; simpl; auto. rewrite late_step_g_true. destruct (late_step rid s e); auto. Qed.
+
+Lemma late_step_g_weaken : forall rid s e s', late_step_g false rid s e = Some s' -> late_step rid s e = Some s'.
+Proof.
+  intros rid s e s'. unfold late_step_g. destruct e as [| | | |[m|]]; auto.
+  destruct (same_key rid m && is_done (fst s) && negb false); auto. discriminate.
+Qed.
+
+Lemma late_run_g_weaken : forall rid evs s x, late_run_g false rid s evs = Some x -> late_run rid s evs = Some x.
+Proof.
+  induction evs as [|e evs IH]; intros s x H; simpl in *; auto.
+  destruct (late_step_g false rid s e) as [s'|] eqn:E; try discriminate.
+  rewrite (late_step_g_weaken _ _ _ _ E). auto.
+Qed.
+
+(** The property's environment is the full-strength one without late answers. *)
+Definition unanswered (ph : phase) (ans : bool) : Prop :=
+  match ph with PhPosted | PhAcked => ans = false | _ => True end.
+
+Lemma strict_step_embeds : forall rid ph ans e ph',
+  unanswered ph ans -> phase_step rid ph e = Some ph' ->
+  exists ans', late_step_g false rid (ph, ans) e = Some (ph', ans') /\ unanswered ph' ans'.
+Proof.
+  intros rid ph ans e ph' Hu H. destruct e as [cm|p| | |[m|]]; simpl in H.
+  - discriminate.
+  - unfold late_step_g, late_step. cbn [fst snd phase_step]. rewrite H.
+    eexists; split; eauto.
+    destruct ph; try discriminate.
+    + unfold post_phase in H. destruct p as [code b|]; [|inversion H; simpl; auto].
+      destruct (code =? 202) eqn:E2.
+      * inversion H; subst. simpl. simpl in Hu. subst ans. destruct b; simpl; auto. rewrite E2. auto.
+      * destruct (code =? 200); [destruct (body_ok_200 rid b)|destruct (body_ok_other rid b)]; inversion H; simpl; auto.
+    + destruct (post_phase rid p); inversion H; simpl; auto.
+  - unfold late_step_g, late_step. cbn [fst snd phase_step]. exists ans.
+    destruct ph; inversion H; subst; simpl; auto.
+  - unfold late_step_g, late_step. cbn [fst snd phase_step]. exists ans.
+    destruct ph; inversion H; subst; simpl; auto.
+  - unfold late_step_g, late_step. cbn [fst snd].
+    destruct (same_key rid m) eqn:Ek.
+    + destruct (is_terminal rid m) eqn:Et; try discriminate.
+      destruct ph; try discriminate; simpl in Hu; subst ans; inversion H; subst; simpl; eexists; split; eauto; simpl; auto.
+    + inversion H; subst. simpl. eauto.
+  - inversion H; subst. unfold late_step_g, late_step. simpl. eauto.
+Qed.
+
+Lemma strict_embeds : forall rid evs ph ans,
+  unanswered ph ans -> phase_run rid ph evs = Some PhDone ->
+  exists ans', late_run_g false rid (ph, ans) evs = Some (PhDone, ans').
+Proof.
+  induction evs as [|e evs IH]; intros ph ans Hu H; simpl in *.
+  - inversion H; subst. eauto.
+  - destruct (phase_step rid ph e) as [ph'|] eqn:E; try discriminate.
+    destruct (strict_step_embeds _ _ _ _ _ Hu E) as [ans' [E' Hu']]. rewrite E'. eauto.
+Qed.
+
+Lemma sched_ok_is_late : forall rid evs, sched_ok rid evs = true -> sched_ok_late rid evs = true.
+Proof.
+  intros rid evs H. unfold sched_ok in H. unfold sched_ok_late.
+  destruct (phase_run rid PhPosted evs) as [[]|] eqn:E; try discriminate.
+  destruct (strict_embeds rid evs PhPosted false eq_refl E) as [a' Ha].
+  unfold late_init. rewrite (late_run_g_weaken _ _ _ _ Ha). auto.
+Qed.
+
+(** The transport state that corresponds to a state of the request's life.
+    Once the request is done and the server has not answered, the key is
+    remembered (members with [c_drop_late]). *)
+Definition rel (c : cfg) (rid : id) (s : late_state) (ss : sstate) : Prop :=
+  match fst s with
+  | PhPosted => s_task ss = SPosting rid
+  | PhAnswered => snd s = true /\ exists a, s_task ss = SResolved rid a /\ is_terminal rid a = true
+  | PhAcked => s_task ss = SWaiting rid
+  | PhAnsweredAcked => snd s = true /\ exists a, s_task ss = SWoken rid a /\ is_terminal rid a = true
+  | PhDone => s_task ss = SIdle /\
+              (snd s = false -> c_drop_late c = true -> has_key (key rid) (s_late ss) = true)
+  end.
+
+(** Terminal messages still to come: with [c_route_in_stream] the answer is
+    out as soon as the stream task has handled it. *)
+Definition owed (c : cfg) (ph : phase) : nat :=
+  match ph with
+  | PhDone => 0%nat
+  | PhAnswered | PhAnsweredAcked => if c_route_in_stream c then 0%nat else 1%nat
+  | _ => 1%nat
+  end.
 
 Lemma synth_terminal : forall c rid code,
   c_keep_id c = true -> count_terminals rid [synth c rid code] = 1%nat.
@@ -242,105 +364,217 @@ Qed.
 Lemma one_msg_count : forall rid s m, count_terminals rid [(s, m)] = if is_terminal rid m then 1%nat else 0%nat.
 Proof. intros. unfold count_terminals. simpl. destruct (is_terminal rid m); auto. Qed.
 
-Lemma post_done_ok : forall c rid fut p ph',
+Lemma fail_ok : forall c rid late code,
+  c_keep_id c = true ->
+  s_task (fst (fail c rid late code)) = SIdle /\
+  count_terminals rid (snd (fail c rid late code)) = 1%nat /\
+  (c_drop_late c = true -> has_key (key rid) (s_late (fst (fail c rid late code))) = true).
+Proof.
+  intros. unfold fail. cbn [fst snd s_task s_late]. rewrite synth_terminal by auto.
+  split; auto. split; auto. intros Hd. unfold abandon. rewrite Hd. apply has_key_here.
+Qed.
+
+(** Every branch of the POST reply but the 202: the request is over, with one
+    terminal message; unless the reply carried the answer, the key is kept. *)
+Lemma post_branches_ok : forall c rid late p ph' acked,
   c_keep_id c = true -> c_other_terminal c = true ->
   post_phase rid p = Some ph' ->
-  (forall a, fut = Some a -> is_terminal rid a = true) ->
-  let r := post_done c rid fut p in
-  (fut = None -> rel rid ph' (fst r) /\ (count_terminals rid (snd r) + owed ph' = 1)%nat) /\
-  (fut <> None -> fst r = SIdle /\ count_terminals rid (snd r) = 1%nat).
+  let r := post_branches c rid late p acked in
+  (ph' = PhAcked /\ r = acked /\ post_answers rid p = false) \/
+  (ph' = PhDone /\ s_task (fst r) = SIdle /\ count_terminals rid (snd r) = 1%nat /\
+   (post_answers rid p = false -> c_drop_late c = true -> has_key (key rid) (s_late (fst r)) = true)).
 Proof.
-  intros c rid fut p ph' Hk Ho Hp Hf. unfold post_done, post_phase in *.
+  intros c rid late p ph' acked Hk Ho Hp. unfold post_branches, post_phase, post_answers in *.
   destruct p as [code b|].
-  2:{ inversion Hp; subst. simpl. rewrite synth_terminal by auto. split; intros; split; simpl; auto. }
+  2:{ inversion Hp; subst. right. destruct (fail_ok c rid late (-32603) Hk) as [A [B C]]. auto. }
   destruct (code =? 202) eqn:E202.
-  { assert (code =? 200 = false) by lia. rewrite H. inversion Hp; subst.
-    destruct fut as [a|]; simpl.
-    - split; intros; try congruence. split; auto. rewrite one_msg_count. rewrite (Hf a); auto.
-    - split; intros; try congruence. split; simpl; auto. }
+  { assert (code =? 200 = false) by lia. rewrite H. inversion Hp; subst. left.
+    split; auto. split; auto. destruct b; auto. }
+  right.
   destruct (code =? 200) eqn:E200.
   { destruct (body_ok_200 rid b) eqn:Eb; inversion Hp; subst.
-    destruct b as [m| |]; simpl in Eb; try discriminate; simpl.
-    - rewrite one_msg_count, Eb. split; intros; split; simpl; auto.
-    - rewrite synth_terminal by auto. split; intros; split; simpl; auto. }
+    destruct b as [m| |]; simpl in Eb; try discriminate.
+    - unfold done. cbn [fst snd s_task s_late]. rewrite one_msg_count, Eb. simpl. repeat split; auto. intros; discriminate.
+    - destruct (fail_ok c rid late (-32603) Hk) as [A [B C]]. auto. }
   rewrite Ho.
   destruct (body_ok_other rid b) eqn:Eb; inversion Hp; subst.
-  destruct b as [m| |]; simpl in Eb; simpl.
-  - unfold is_answer_for. destruct (kind_terminal (m_kind m) && same_key rid m) eqn:Ea; simpl in *.
-    + rewrite one_msg_count, Eb. split; intros; split; simpl; auto.
-    + rewrite synth_terminal by auto. split; intros; split; simpl; auto.
-  - rewrite synth_terminal by auto. split; intros; split; simpl; auto.
-  - rewrite synth_terminal by auto. split; intros; split; simpl; auto.
+  destruct b as [m| |]; simpl in Eb.
+  - unfold is_answer_for. destruct (kind_terminal (m_kind m) && same_key rid m) eqn:Ea; simpl in Eb.
+    + unfold done. cbn [fst snd s_task s_late]. rewrite one_msg_count, Eb. simpl. repeat split; auto. intros; discriminate.
+    + destruct (fail_ok c rid late (-32603) Hk) as [A [B C]]. auto.
+  - destruct (fail_ok c rid late (-32603) Hk) as [A [B C]]. auto.
+  - destruct (fail_ok c rid late (-32603) Hk) as [A [B C]]. auto.
 Qed.
 
-Lemma one_terminal_gen : forall c rid,
-  c_keep_id c = true -> c_other_terminal c = true ->
-  forall evs ph st,
-  rel rid ph st ->
-  phase_run rid ph evs = Some PhDone ->
-  count_terminals rid (run c st evs) = owed ph /\ final c st evs = SIdle.
+(** A message that does not bear the request's key: never a terminal message
+    for it, never touches the sender, never forgets the request's key. *)
+Lemma not_pending_other : forall c rid ss m,
+  same_key rid m = false ->
+  s_task (fst (not_pending c ss m)) = s_task ss /\
+  count_terminals rid (snd (not_pending c ss m)) = 0%nat /\
+  has_key (key rid) (s_late (fst (not_pending c ss m))) = has_key (key rid) (s_late ss).
 Proof.
-  intros c rid Hk Ho. induction evs as [|e evs IH]; intros ph st Hrel Hrun.
-  - simpl in *. inversion Hrun; subst. simpl in Hrel. subst. auto.
-  - cbn [phase_run] in Hrun. destruct (phase_step rid ph e) as [ph'|] eqn:Est; try discriminate.
-    cbn [run final]. rewrite count_app.
-    assert (G : rel rid ph' (fst (step c st e)) /\
-                (count_terminals rid (snd (step c st e)) + owed ph' = owed ph)%nat).
-    { destruct e as [cm|p| | |om]; simpl in Est.
-      - discriminate.
-      - (* EPost *)
-        destruct ph; try discriminate; simpl in Hrel.
-        + subst st. simpl.
-          destruct (post_done_ok c rid None p ph' Hk Ho Est) as [A _]; [intros; discriminate|].
-          destruct (A eq_refl). split; auto.
-        + destruct Hrel as [a [Hs Ha]]. subst st. simpl.
-          destruct (post_phase rid p) as [ph''|] eqn:Ep; try discriminate. inversion Est; subst ph'.
-          destruct (post_done_ok c rid (Some a) p ph'' Hk Ho Ep) as [_ B].
-          { intros a0 E. inversion E; subst. auto. }
-          destruct B as [B1 B2]; [discriminate|]. simpl. rewrite B1, B2. auto.
-      - (* ETimeout *)
-        destruct ph; inversion Est; subst; simpl in Hrel.
-        + subst. simpl. auto.
-        + destruct Hrel as [a [Hs Ha]]. subst. simpl. split; eauto.
-        + subst. simpl. rewrite synth_terminal by auto. auto.
-        + destruct Hrel as [a [Hs Ha]]. subst. simpl. rewrite synth_terminal by auto. auto.
-        + subst. simpl. auto.
-      - (* EWake *)
-        destruct ph; inversion Est; subst; simpl in Hrel.
-        + subst. simpl. auto.
-        + destruct Hrel as [a [Hs Ha]]. subst. simpl. split; eauto.
-        + subst. simpl. auto.
-        + destruct Hrel as [a [Hs Ha]]. subst. simpl. rewrite one_msg_count, Ha. auto.
-        + subst. simpl. auto.
-      - (* ESse *)
-        destruct om as [m|].
-        2:{ inversion Est; subst. simpl. split; auto. }
-        destruct (same_key rid m) eqn:Esk.
-        + destruct (is_terminal rid m) eqn:Et; try discriminate.
-          destruct ph; inversion Est; subst; simpl in Hrel; subst; simpl; rewrite Esk; simpl; split; eauto.
-        + inversion Est; subst ph'.
-          assert (Hnt : is_terminal rid m = false).
-          { destruct (is_terminal rid m) eqn:Et; auto. apply terminal_same_key in Et. congruence. }
-          destruct ph; simpl in Hrel.
-          * subst. simpl. rewrite Esk. simpl. rewrite one_msg_count, Hnt. auto.
-          * destruct Hrel as [a [Hs Ha]]. subst. simpl. rewrite one_msg_count, Hnt. split; eauto.
-          * subst. simpl. rewrite Esk. simpl. rewrite one_msg_count, Hnt. auto.
-          * destruct Hrel as [a [Hs Ha]]. subst. simpl. rewrite one_msg_count, Hnt. split; eauto.
-          * subst. simpl. rewrite one_msg_count, Hnt. auto. }
-    destruct G as [G1 G2].
-    destruct (IH ph' _ G1 Hrun) as [I1 I2]. rewrite I1. split; auto.
+  intros c rid ss m Hk.
+  assert (Hnt : is_terminal rid m = false).
+  { destruct (is_terminal rid m) eqn:Et; auto. apply terminal_same_key in Et. congruence. }
+  unfold not_pending. destruct (late_hit c (s_late ss) m); cbn [fst snd s_task s_late].
+  - split; auto. split; auto. unfold forget. unfold same_key in Hk. destruct (m_id m) as [i|]; auto.
+    apply has_key_drop_other. apply str_eqb_false_neq in Hk. congruence.
+  - rewrite one_msg_count, Hnt. auto.
 Qed.
 
-Lemma one_terminal : forall c rid evs,
+Ltac fin := repeat split; eauto; try (intros; discriminate); try lia.
+
+Lemma step_sim : forall c rid allow,
+  c_keep_id c = true -> c_other_terminal c = true -> (allow = true -> c_drop_late c = true) ->
+  forall s ss e s',
+  rel c rid s ss -> late_step_g allow rid s e = Some s' ->
+  rel c rid s' (fst (step c ss e)) /\
+  (count_terminals rid (snd (step c ss e)) + owed c (fst s') = owed c (fst s))%nat.
+Proof.
+  intros c rid allow Hk Ho Ha [ph ans] [task late] e s' Hrel Hst.
+  unfold rel in Hrel. cbn [fst snd s_task s_late] in Hrel.
+  destruct e as [cm|p| | |[m|]].
+  - discriminate.
+  - (* EPost *)
+    unfold late_step_g, late_step in Hst. cbn [fst snd phase_step] in Hst.
+    destruct ph; try discriminate.
+    + subst task.
+      destruct (post_phase rid p) as [ph'|] eqn:Ep; try discriminate. inversion Hst; subst s'. clear Hst.
+      cbn [step s_task s_late]. unfold post_done.
+      destruct (post_branches_ok c rid late p ph' (SS (SWaiting rid) late, []) Hk Ho Ep)
+        as [[E1 [E2 E3]]|[E1 [E2 [E3 E4]]]].
+      * rewrite E2. subst ph'. unfold rel. simpl. auto.
+      * subst ph'. unfold rel. cbn [fst snd]. split; [split; auto|].
+        -- intros Hans. apply orb_false_iff in Hans. destruct Hans. auto.
+        -- simpl. lia.
+    + destruct Hrel as [Hans [a [Ht Hta]]]. subst task. simpl in Hans. subst ans.
+      destruct (post_phase rid p) as [ph'|] eqn:Ep; try discriminate. inversion Hst; subst s'. clear Hst.
+      cbn [step s_task s_late]. unfold post_done.
+      destruct (c_route_in_stream c) eqn:Eb.
+      * unfold done, rel. cbn [fst snd s_task s_late owed]. rewrite Eb. fin.
+      * destruct (post_branches_ok c rid late p ph' (done late [(FromHandoff, a)]) Hk Ho Ep)
+          as [[E1 [E2 E3]]|[E1 [E2 [E3 E4]]]].
+        -- rewrite E2. unfold done, rel. cbn [fst snd s_task s_late owed]. rewrite Eb, one_msg_count, Hta.
+           fin.
+        -- unfold rel. cbn [fst snd owed]. rewrite Eb. fin.
+  - (* ETimeout *)
+    unfold late_step_g, late_step in Hst. cbn [fst snd phase_step] in Hst.
+    destruct ph; inversion Hst; subst s'; clear Hst; cbn [step s_task s_late].
+    + subst task. unfold rel. simpl. auto.
+    + destruct Hrel as [Hans [a [Ht Hta]]]. subst task. unfold rel. simpl. split; eauto.
+    + subst task. destruct (fail_ok c rid late (-32000) Hk) as [A [B C]].
+      unfold rel. cbn [fst snd owed]. rewrite B. fin.
+    + destruct Hrel as [Hans [a [Ht Hta]]]. subst task. simpl in Hans. subst ans.
+      destruct (c_route_in_stream c) eqn:Eb.
+      * unfold done, rel. cbn [fst snd s_task s_late owed]. rewrite Eb. fin.
+      * destruct (fail_ok c rid late (-32000) Hk) as [A [B C]].
+        unfold rel. cbn [fst snd owed]. rewrite B, Eb. fin.
+    + destruct Hrel as [Ht Hl]. subst task. unfold rel. simpl. auto.
+  - (* EWake *)
+    unfold late_step_g, late_step in Hst. cbn [fst snd phase_step] in Hst.
+    destruct ph; inversion Hst; subst s'; clear Hst; cbn [step s_task s_late].
+    + subst task. unfold rel. simpl. auto.
+    + destruct Hrel as [Hans [a [Ht Hta]]]. subst task. unfold rel. simpl. split; eauto.
+    + subst task. unfold rel. simpl. auto.
+    + destruct Hrel as [Hans [a [Ht Hta]]]. subst task. simpl in Hans. subst ans.
+      unfold done, rel. cbn [fst snd s_task s_late owed].
+      destruct (c_route_in_stream c); [|rewrite one_msg_count, Hta]; fin.
+    + destruct Hrel as [Ht Hl]. subst task. unfold rel. simpl. auto.
+  - (* ESse (Some m) *)
+    unfold late_step_g in Hst. cbn [fst snd] in Hst.
+    destruct (same_key rid m) eqn:Esk.
+    + (* the answer *)
+      destruct (is_done ph && negb allow) eqn:Eda; [simpl in Hst; rewrite Eda in Hst; discriminate|].
+      simpl in Hst. rewrite Eda in Hst. unfold late_step in Hst. cbn [fst snd] in Hst. rewrite Esk in Hst.
+      destruct (is_terminal rid m) eqn:Et; [|discriminate].
+      destruct ans; [discriminate|]. simpl in Hst.
+      destruct ph; inversion Hst; subst s'; clear Hst; cbn [step s_task s_late].
+      * subst task. rewrite Esk. unfold rel, resolved_out. cbn [fst snd s_task owed].
+        split; [split; eauto|]. destruct (c_route_in_stream c); [rewrite one_msg_count, Et|]; auto.
+      * subst task. rewrite Esk. unfold rel, resolved_out. cbn [fst snd s_task owed].
+        split; [split; eauto|]. destruct (c_route_in_stream c); [rewrite one_msg_count, Et|]; auto.
+      * (* late: dropped *)
+        destruct Hrel as [Ht Hl]. subst task.
+        assert (allow = true) by (destruct allow; auto; discriminate).
+        assert (Hd := Ha H). specialize (Hl eq_refl Hd).
+        assert (Hhit : late_hit c late m = true).
+        { unfold late_hit. rewrite Hd, (terminal_kind _ _ Et). simpl.
+          unfold is_terminal in Et. apply andb_prop in Et. destruct Et as [_ Ei].
+          destruct (m_id m) as [i|]; try discriminate. apply id_eqb_eq in Ei. subst i. auto. }
+        unfold not_pending. cbn [s_late s_task]. rewrite Hhit. unfold rel. cbn [fst snd s_task].
+        fin.
+    + (* unrelated *)
+      simpl in Hst. unfold late_step in Hst. cbn [fst snd] in Hst. rewrite Esk in Hst. inversion Hst; subst s'. clear Hst.
+      destruct (not_pending_other c rid (SS task late) m Esk) as [N1 [N2 N3]].
+      assert (G : fst (step c (SS task late) (ESse (Some m))) = fst (not_pending c (SS task late) m) /\
+                  snd (step c (SS task late) (ESse (Some m))) = snd (not_pending c (SS task late) m)).
+      { cbn [step s_task s_late]. destruct ph; cbn [fst] in Hrel.
+        - subst task. rewrite Esk. auto.
+        - destruct Hrel as [_ [a [Ht _]]]. subst task. auto.
+        - subst task. rewrite Esk. auto.
+        - destruct Hrel as [_ [a [Ht _]]]. subst task. auto.
+        - destruct Hrel as [Ht _]. subst task. auto. }
+      destruct G as [G1 G2]. rewrite G1, G2, N2. split; [|lia].
+      unfold rel. cbn [fst snd]. rewrite N1, N3. cbn [s_task s_late]. exact Hrel.
+  - (* ESse None *)
+    unfold late_step_g, late_step in Hst. cbn [fst snd phase_step] in Hst. inversion Hst; subst s'.
+    cbn [step fst snd]. split; auto.
+Qed.
+
+Lemma sim_gen : forall c rid allow,
+  c_keep_id c = true -> c_other_terminal c = true -> (allow = true -> c_drop_late c = true) ->
+  forall evs s ss ans',
+  rel c rid s ss ->
+  late_run_g allow rid s evs = Some (PhDone, ans') ->
+  count_terminals rid (run c ss evs) = owed c (fst s) /\ s_task (final c ss evs) = SIdle.
+Proof.
+  intros c rid allow Hk Ho Ha. induction evs as [|e evs IH]; intros s ss ans' Hrel Hrun.
+  - simpl in *. inversion Hrun; subst. unfold rel in Hrel. simpl in Hrel. destruct Hrel. auto.
+  - cbn [late_run_g] in Hrun. destruct (late_step_g allow rid s e) as [s'|] eqn:Est; try discriminate.
+    cbn [run final]. rewrite count_app.
+    destruct (step_sim c rid allow Hk Ho Ha s ss e s' Hrel Est) as [G1 G2].
+    destruct (IH s' _ ans' G1 Hrun) as [I1 I2]. rewrite I1. split; auto.
+Qed.
+
+Lemma first_step : forall c rid late evs,
+  run c (SS SIdle late) (ESend (CReq rid) :: evs) = run c (SS (SPosting rid) (unabandon c rid late)) evs /\
+  final c (SS SIdle late) (ESend (CReq rid) :: evs) = final c (SS (SPosting rid) (unabandon c rid late)) evs.
+Proof. intros. split; reflexivity. Qed.
+
+(** The property's environment: every member with [keep_id] and
+    [other_terminal] — with or without the two proposed patches. *)
+Lemma one_terminal : forall c rid evs late,
   c_keep_id c = true -> c_other_terminal c = true ->
   sched_ok rid evs = true ->
-  count_terminals rid (run c SIdle (ESend (CReq rid) :: evs)) = 1%nat /\
-  final c SIdle (ESend (CReq rid) :: evs) = SIdle.
+  count_terminals rid (run c (SS SIdle late) (ESend (CReq rid) :: evs)) = 1%nat /\
+  s_task (final c (SS SIdle late) (ESend (CReq rid) :: evs)) = SIdle.
 Proof.
-  intros c rid evs Hk Ho H. unfold sched_ok in H.
+  intros c rid evs late Hk Ho H. unfold sched_ok in H.
   destruct (phase_run rid PhPosted evs) as [[]|] eqn:E; try discriminate.
-  cbn [run final step fst snd app].
-  apply (one_terminal_gen c rid Hk Ho evs PhPosted (SPosting rid)); simpl; auto.
+  destruct (strict_embeds rid evs PhPosted false eq_refl E) as [a' Ha'].
+  destruct (first_step c rid late evs) as [R F]. rewrite R, F.
+  apply (sim_gen c rid false Hk Ho (fun H => False_ind _ (Bool.diff_false_true H)) evs (PhPosted, false) _ a'); auto.
+  reflexivity.
+Qed.
+
+(** Full strength: the server's one answer may also come after the request
+    has had its synthesised terminal message. *)
+Definition one_terminal_statement (c : cfg) : Prop :=
+  forall rid evs late, sched_ok_late rid evs = true ->
+  count_terminals rid (run c (SS SIdle late) (ESend (CReq rid) :: evs)) = 1%nat /\
+  s_task (final c (SS SIdle late) (ESend (CReq rid) :: evs)) = SIdle.
+
+Lemma one_terminal_full : forall c,
+  c_keep_id c = true -> c_other_terminal c = true -> c_drop_late c = true ->
+  one_terminal_statement c.
+Proof.
+  intros c Hk Ho Hd rid evs late H. unfold sched_ok_late in H.
+  destruct (late_run rid late_init evs) as [[[] a']|] eqn:E; try discriminate.
+  destruct (first_step c rid late evs) as [R F]. rewrite R, F.
+  apply (sim_gen c rid true Hk Ho (fun _ => Hd) evs late_init _ a'); auto.
+  - reflexivity.
+  - rewrite late_run_g_true. auto.
 Qed.
 
 (** The six modes of the property text are accepted schedules (with any amount
@@ -386,6 +620,36 @@ Proof.
   - rewrite noise_run by auto. simpl. rewrite <- (app_nil_r n2), noise_run by auto. auto.
 Qed.
 
+(** The late modes: the answer arrives after the synthesised timeout error,
+    after a failed POST, after an unexpected status — accepted by the
+    full-strength environment, with unrelated traffic around. *)
+Lemma noise_late_run : forall rid l s evs, noise rid l -> late_run rid s (l ++ evs) = late_run rid s evs.
+Proof.
+  induction l as [|e l IH]; intros s evs H; simpl; auto.
+  assert (He := H e (or_introl eq_refl)).
+  assert (noise rid l) by (intros x Hx; apply H; right; auto).
+  destruct e as [| | | |[m|]]; try tauto.
+  - unfold late_step. rewrite He. auto.
+  - unfold late_step. simpl. destruct s. simpl. auto.
+Qed.
+
+Lemma late_modes_accepted : forall rid a n1 n2 n3,
+  is_terminal rid a = true -> noise rid n1 -> noise rid n2 -> noise rid n3 ->
+  sched_ok_late rid (n1 ++ EPost (PStatus 202 BNotJson) :: n2 ++ ETimeout :: n3 ++ [ESse (Some a)]) = true /\
+  sched_ok_late rid (n1 ++ EPost PExc :: n2 ++ [ESse (Some a)]) = true /\
+  sched_ok_late rid (n1 ++ EPost (PStatus 500 BNotJson) :: n2 ++ [ESse (Some a)]) = true.
+Proof.
+  intros rid a n1 n2 n3 Ha H1 H2 H3.
+  assert (Hs := terminal_same_key _ _ Ha).
+  unfold sched_ok_late, late_init. repeat split.
+  - rewrite noise_late_run by auto. simpl. rewrite noise_late_run by auto. simpl.
+    rewrite noise_late_run by auto. simpl. unfold late_step. simpl. rewrite Hs, Ha. auto.
+  - rewrite noise_late_run by auto. simpl. rewrite noise_late_run by auto. simpl.
+    unfold late_step. simpl. rewrite Hs, Ha. auto.
+  - rewrite noise_late_run by auto. simpl. rewrite noise_late_run by auto. simpl.
+    unfold late_step. simpl. rewrite Hs, Ha. auto.
+Qed.
+
 (* ------------------------------------------------------------------ *)
 (** * server messages on the stream: once, in order                    *)
 (* ------------------------------------------------------------------ *)
@@ -395,15 +659,29 @@ Proof. induction l; [apply SubNil | apply SubTake; auto]. Qed.
 Lemma sse_outs_app : forall a b, sse_outs (a ++ b) = sse_outs a ++ sse_outs b.
 Proof. intros. unfold sse_outs. rewrite filter_app, map_app. auto. Qed.
 
-Lemma sse_outs_sender : forall c i code, sse_outs [synth c i code] = [].
-Proof. auto. Qed.
+Lemma stream_part_app : forall a b, stream_part (a ++ b) = stream_part a ++ stream_part b.
+Proof. intros. unfold stream_part. rewrite filter_app, map_app. auto. Qed.
 
-Lemma post_done_no_sse : forall c i fut p, sse_outs (snd (post_done c i fut p)) = [].
+Lemma post_branches_no_sse : forall c i late p acked,
+  sse_outs (snd acked) = [] -> sse_outs (snd (post_branches c i late p acked)) = [].
 Proof.
-  intros. unfold post_done. destruct p as [code b|]; auto.
+  intros. unfold post_branches. destruct p as [code b|]; auto.
   destruct (code =? 200). destruct b; auto.
-  destruct (code =? 202). destruct fut; auto.
+  destruct (code =? 202); auto.
   destruct (c_other_terminal c); destruct b; auto. destruct (is_answer_for i m); auto.
+Qed.
+
+Lemma post_done_no_sse : forall c i fut late p, sse_outs (snd (post_done c i fut late p)) = [].
+Proof.
+  intros. unfold post_done. destruct fut as [a|].
+  - destruct (c_route_in_stream c); auto. apply post_branches_no_sse. auto.
+  - apply post_branches_no_sse. auto.
+Qed.
+
+Lemma not_pending_subseq : forall c ss m l r,
+  Subseq l r -> Subseq (sse_outs (snd (not_pending c ss m)) ++ l) (m :: r).
+Proof.
+  intros. unfold not_pending. destruct (late_hit c (s_late ss) m); simpl; [apply SubSkip|apply SubTake]; auto.
 Qed.
 
 (** What the event-stream task itself delivers is always a subsequence of what
@@ -412,21 +690,29 @@ Lemma sse_outs_subseq : forall c evs st, Subseq (sse_outs (run c st evs)) (strea
 Proof.
   induction evs as [|e evs IH]; intros st; cbn [run stream_msgs].
   - apply SubNil.
-  - rewrite sse_outs_app.
-    destruct e as [cm|p| | |[m|]].
-    + destruct cm; destruct st; simpl; apply IH.
-    + destruct st; simpl; try apply IH; rewrite post_done_no_sse; simpl; apply IH.
-    + destruct st; simpl; apply IH.
-    + destruct st; simpl; apply IH.
-    + destruct st; simpl; try (apply SubTake; apply IH).
-      * destruct (same_key i m); simpl; [apply SubSkip|apply SubTake]; apply IH.
-      * destruct (same_key i m); simpl; [apply SubSkip|apply SubTake]; apply IH.
+  - rewrite sse_outs_app. destruct st as [task late].
+    destruct e as [cm|p| | |[m|]]; cbn [step s_task s_late].
+    + destruct cm; destruct task; simpl; apply IH.
+    + destruct task; try (simpl; apply IH); rewrite post_done_no_sse; simpl; apply IH.
+    + destruct task; simpl; try apply IH; destruct (c_route_in_stream c); simpl; apply IH.
+    + destruct task; simpl; try apply IH; destruct (c_route_in_stream c); simpl; apply IH.
+    + destruct task; try (apply not_pending_subseq; apply IH).
+      * destruct (same_key i m); [|apply not_pending_subseq; apply IH].
+        unfold resolved_out. destruct (c_route_in_stream c); simpl; [apply SubTake|apply SubSkip]; apply IH.
+      * destruct (same_key i m); [|apply not_pending_subseq; apply IH].
+        unfold resolved_out. destruct (c_route_in_stream c); simpl; [apply SubTake|apply SubSkip]; apply IH.
     + simpl. apply IH.
 Qed.
 
-(** Ids the sender has or will have in flight. *)
+(** Keys the transport has or will have a reason to match: the request in
+    flight, the abandoned ones, the requests still to be sent. *)
+Definition msg_has_key (k : str) (m : msg) : bool :=
+  match m_id m with Some i => str_eqb (key i) k | None => false end.
+
 Definition st_ids (st : sender) : list id :=
-  match st with SPosting i | SWaiting i => [i] | _ => [] end.
+  match st with SPosting i | SWaiting i | SResolved i _ | SWoken i _ => [i] | _ => [] end.
+
+Definition st_keys (ss : sstate) : list str := map key (st_ids (s_task ss)) ++ s_late ss.
 
 Fixpoint sent_ids (evs : list ev) : list id :=
   match evs with
@@ -435,71 +721,295 @@ Fixpoint sent_ids (evs : list ev) : list id :=
   | _ :: r => sent_ids r
   end.
 
-Lemma post_done_ids : forall c i fut p j, In j (st_ids (fst (post_done c i fut p))) -> j = i.
+Definition sent_keys (evs : list ev) : list str := map key (sent_ids evs).
+
+Lemma drop_key_in : forall k k' l, In k (drop_key k' l) -> In k l.
+Proof. intros k k' l H. unfold drop_key in H. apply filter_In in H. tauto. Qed.
+
+Lemma post_branches_keys : forall c i late p acked k,
+  (In k (st_keys (fst acked)) -> k = key i \/ In k late) ->
+  In k (st_keys (fst (post_branches c i late p acked))) -> k = key i \/ In k late.
 Proof.
-  intros c i fut p j. unfold post_done. destruct p as [code b|]; simpl; try tauto.
-  destruct (code =? 200). destruct b; simpl; tauto.
-  destruct (code =? 202). destruct fut; simpl; intuition.
-  destruct (c_other_terminal c); destruct b; simpl; try tauto. destruct (is_answer_for i m); simpl; tauto.
+  intros c i late p acked k Hacked. unfold post_branches, fail, done, abandon, st_keys.
+  destruct p as [code b|]; cbn [fst s_task s_late st_ids map app].
+  2:{ destruct (c_drop_late c); simpl; intuition. }
+  destruct (code =? 200).
+  { destruct b; cbn [fst s_task s_late st_ids map app]; destruct (c_drop_late c); simpl; intuition. }
+  destruct (code =? 202); [exact Hacked|].
+  destruct (c_other_terminal c); destruct b; try destruct (is_answer_for i m);
+    cbn [fst s_task s_late st_ids map app]; destruct (c_drop_late c); simpl; intuition.
 Qed.
 
-Lemma post_done_some_idle : forall c i a p, fst (post_done c i (Some a) p) = SIdle.
+Lemma post_done_keys : forall c i fut late p k,
+  In k (st_keys (fst (post_done c i fut late p))) -> k = key i \/ In k late.
 Proof.
-  intros. unfold post_done. destruct p as [code b|]; auto.
-  destruct (code =? 200). destruct b; auto.
-  destruct (code =? 202); auto.
-  destruct (c_other_terminal c); destruct b; auto. destruct (is_answer_for i m); auto.
+  intros c i fut late p k. unfold post_done. destruct fut as [a|].
+  - destruct (c_route_in_stream c); [unfold done, st_keys; simpl; auto|].
+    apply post_branches_keys. unfold done, st_keys; simpl; auto.
+  - apply post_branches_keys. unfold st_keys; simpl. intuition.
 Qed.
 
-Lemma ids_step : forall c st e evs j,
-  In j (st_ids (fst (step c st e)) ++ sent_ids evs) -> In j (st_ids st ++ sent_ids (e :: evs)).
+Lemma not_pending_keys : forall c ss m k,
+  In k (st_keys (fst (not_pending c ss m))) -> In k (st_keys ss).
 Proof.
-  intros c st e evs j H. apply in_app_or in H. apply in_or_app.
-  destruct e as [cm|p| | |[m|]].
-  - destruct cm as [i|]; destruct st; simpl in *; tauto.
-  - destruct st; simpl in *; try tauto.
-    + destruct H as [H|H]; auto. apply post_done_ids in H. subst. auto.
-    + rewrite post_done_some_idle in H. simpl in H. tauto.
-  - destruct st; simpl in *; tauto.
-  - destruct st; simpl in *; tauto.
-  - destruct st; simpl in *; try tauto.
-    + destruct (same_key i m); simpl in *; tauto.
-    + destruct (same_key i m); simpl in *; tauto.
-  - simpl in *. tauto.
+  intros c ss m k. unfold not_pending. destruct (late_hit c (s_late ss) m); auto.
+  unfold st_keys. cbn [fst s_task s_late]. intros H. apply in_app_or in H. apply in_or_app.
+  destruct H as [H|H]; auto. right. unfold forget in H. destruct (m_id m); auto. eapply drop_key_in; eauto.
+Qed.
+
+Ltac keys_fin H :=
+  first [ exact H
+        | apply post_done_keys in H; unfold st_keys; simpl; intuition; fail
+        | eapply not_pending_keys; eauto; fail
+        | unfold fail, done, abandon, st_keys in *; cbn [fst s_task s_late st_ids map app] in *;
+          try destruct (c_drop_late _); simpl in *; intuition; fail ].
+
+Lemma step_keys : forall c ss e k,
+  In k (st_keys (fst (step c ss e))) ->
+  In k (st_keys ss) \/ (exists i, e = ESend (CReq i) /\ k = key i).
+Proof.
+  intros c [task late] e k H.
+  destruct e as [[i|]|p| | |[m|]]; cbn [step s_task s_late] in H.
+  - destruct task; try (left; exact H).
+    unfold st_keys in H. cbn [fst s_task s_late st_ids map app] in H. destruct H as [H|H]; [right; eauto|].
+    left. unfold st_keys. simpl. unfold unabandon in H. destruct (c_drop_late c); auto. eapply drop_key_in; eauto.
+  - left. destruct task; keys_fin H.
+  - left. destruct task; keys_fin H.
+  - left. destruct task; try destruct (c_route_in_stream c); keys_fin H.
+  - left. destruct task; keys_fin H.
+  - left. destruct task; try destruct (same_key i m); keys_fin H.
+  - left. exact H.
+Qed.
+
+Lemma keys_step : forall c ss e evs k,
+  In k (st_keys (fst (step c ss e)) ++ sent_keys evs) -> In k (st_keys ss ++ sent_keys (e :: evs)).
+Proof.
+  intros c ss e evs k H. apply in_app_or in H. apply in_or_app.
+  destruct H as [H|H].
+  - apply step_keys in H. destruct H as [H|[i [E1 E2]]]; auto. subst. right. unfold sent_keys. simpl. auto.
+  - right. unfold sent_keys in *. destruct e as [[i|]| | | |]; simpl; auto.
 Qed.
 
 Lemma msgs_step : forall e evs m, In m (stream_msgs evs) -> In m (stream_msgs (e :: evs)).
 Proof. intros. destruct e as [| | | |[|]]; simpl; auto. Qed.
 
-Lemma step_sse_out : forall c st e evs,
-  (forall m i, In m (stream_msgs (e :: evs)) -> In i (st_ids st) -> same_key i m = false) ->
-  sse_outs (snd (step c st e)) ++ stream_msgs evs = stream_msgs (e :: evs).
+Lemma late_hit_key : forall c late m, late_hit c late m = true -> exists k, In k late /\ msg_has_key k m = true.
 Proof.
-  intros c st e evs H.
-  destruct e as [cm|p| | |[m|]].
-  - destruct cm; destruct st; simpl; auto.
-  - destruct st; simpl; auto; rewrite post_done_no_sse; auto.
-  - destruct st; simpl; auto.
-  - destruct st; simpl; auto.
+  intros c late m H. unfold late_hit in H. apply andb_prop in H. destruct H as [_ H].
+  unfold msg_has_key. destruct (m_id m) as [i|]; try discriminate.
+  unfold has_key in H. apply existsb_exists in H. destruct H as [k [Hk E]]. eauto.
+Qed.
+
+Lemma not_pending_routes : forall c ss m,
+  (forall k, In k (st_keys ss) -> msg_has_key k m = false) ->
+  sse_outs (snd (not_pending c ss m)) = [m].
+Proof.
+  intros c ss m H. unfold not_pending. destruct (late_hit c (s_late ss) m) eqn:E; auto.
+  apply late_hit_key in E. destruct E as [k [Hk Hm]].
+  rewrite H in Hm; [discriminate|]. unfold st_keys. apply in_or_app. auto.
+Qed.
+
+Lemma step_sse_out : forall c ss e evs,
+  (forall m k, In m (stream_msgs (e :: evs)) -> In k (st_keys ss) -> msg_has_key k m = false) ->
+  sse_outs (snd (step c ss e)) ++ stream_msgs evs = stream_msgs (e :: evs).
+Proof.
+  intros c [task late] e evs H.
+  destruct e as [cm|p| | |[m|]]; cbn [step s_task s_late].
+  - destruct cm; destruct task; simpl; auto.
+  - destruct task; try (simpl; auto; fail); rewrite post_done_no_sse; auto.
+  - destruct task; simpl; auto. destruct (c_route_in_stream c); auto.
+  - destruct task; simpl; auto. destruct (c_route_in_stream c); auto.
   - assert (Hin : In m (stream_msgs (ESse (Some m) :: evs))) by (simpl; auto).
-    destruct st; simpl; auto.
-    + rewrite (H m i Hin) by (simpl; auto). auto.
-    + rewrite (H m i Hin) by (simpl; auto). auto.
+    assert (Hnp : sse_outs (snd (not_pending c (SS task late) m)) = [m]).
+    { apply not_pending_routes. intros k Hk. apply (H m k Hin Hk). }
+    destruct task; try (rewrite Hnp; reflexivity).
+    + assert (E : same_key i m = false) by (apply (H m (key i) Hin); unfold st_keys; simpl; auto).
+      rewrite E, Hnp. reflexivity.
+    + assert (E : same_key i m = false) by (apply (H m (key i) Hin); unfold st_keys; simpl; auto).
+      rewrite E, Hnp. reflexivity.
   - simpl. auto.
 Qed.
 
 (** Server-initiated traffic (nothing on the stream carries the key of a
-    request of this client): delivered completely, once, in stream order,
-    whatever the sender is doing meanwhile. *)
-Lemma unrelated_traffic_in_order : forall c evs st,
-  (forall m i, In m (stream_msgs evs) -> In i (st_ids st ++ sent_ids evs) -> same_key i m = false) ->
-  sse_outs (run c st evs) = stream_msgs evs.
+    request of this client — in flight, abandoned or still to be sent):
+    delivered completely, once, in stream order, whatever the sender is doing
+    meanwhile. *)
+Lemma unrelated_traffic_in_order : forall c evs ss,
+  (forall m k, In m (stream_msgs evs) -> In k (st_keys ss ++ sent_keys evs) -> msg_has_key k m = false) ->
+  sse_outs (run c ss evs) = stream_msgs evs.
 Proof.
-  induction evs as [|e evs IH]; intros st H; cbn [run]; auto.
+  induction evs as [|e evs IH]; intros ss H; cbn [run]; auto.
   rewrite sse_outs_app. rewrite IH.
-  - apply step_sse_out. intros m i Hm Hi. apply H; auto. apply in_or_app. auto.
-  - intros m i Hm Hi. apply H. apply msgs_step; auto. apply ids_step with (c := c); auto.
+  - apply step_sse_out. intros m k Hm Hk. apply H; auto. apply in_or_app. auto.
+  - intros m k Hm Hk. apply H. apply msgs_step; auto. apply keys_step with (c := c); auto.
 Qed.
+
+(** Full-strength ordering (members with both proposed patches): in every
+    life of a request — late answer included — what reaches the read stream
+    from the event stream is exactly what is due, in stream order: every
+    message, the answer at its own place, the late answer not at all. *)
+Definition only_key (rid : id) (late : list str) : Prop := forall k, In k late -> k = key rid.
+
+Lemma only_key_drop : forall rid k late, only_key rid late -> only_key rid (drop_key k late).
+Proof. intros rid k late H x Hx. apply H. eapply drop_key_in; eauto. Qed.
+
+Lemma post_branches_stream : forall c i late p acked,
+  stream_part (snd (post_branches c i late p acked)) = stream_part (snd acked) \/
+  stream_part (snd (post_branches c i late p acked)) = [].
+Proof.
+  intros. unfold post_branches. destruct p as [code b|]; auto.
+  destruct (code =? 200). destruct b; auto.
+  destruct (code =? 202); auto.
+  destruct (c_other_terminal c); destruct b; auto. destruct (is_answer_for i m); auto.
+Qed.
+
+Lemma post_branches_late : forall c rid late p acked,
+  only_key rid late -> only_key rid (s_late (fst acked)) ->
+  only_key rid (s_late (fst (post_branches c rid late p acked))).
+Proof.
+  intros c rid late p acked Hl Ha.
+  assert (F : forall code, only_key rid (s_late (fst (fail c rid late code)))).
+  { intros code k Hk. unfold fail, abandon in Hk. cbn [fst s_late] in Hk.
+    destruct (c_drop_late c); simpl in Hk; intuition. }
+  unfold post_branches. destruct p as [code b|]; auto.
+  destruct (code =? 200). destruct b; auto.
+  destruct (code =? 202); auto.
+  destruct (c_other_terminal c); destruct b; auto. destruct (is_answer_for rid m); auto.
+Qed.
+
+Lemma step_due : forall c rid,
+  c_other_terminal c = true -> c_keep_id c = true -> c_drop_late c = true -> c_route_in_stream c = true ->
+  forall s ss e s',
+  rel c rid s ss -> only_key rid (s_late ss) -> late_step rid s e = Some s' ->
+  only_key rid (s_late (fst (step c ss e))) /\
+  stream_part (snd (step c ss e)) =
+    match e with
+    | ESse (Some m) => if same_key rid m && is_done (fst s) then [] else [m]
+    | _ => []
+    end.
+Proof.
+  intros c rid Ho Hk Hd Hb [ph ans] [task late] e s' Hrel Hl Hst.
+  unfold rel in Hrel. cbn [fst snd s_task s_late] in *.
+  destruct e as [cm|p| | |[m|]].
+  - discriminate.
+  - unfold late_step in Hst. cbn [fst snd phase_step] in Hst. cbn [step s_task s_late].
+    destruct ph; try discriminate.
+    + subst task. unfold post_done. split.
+      * apply post_branches_late; auto.
+      * destruct (post_branches_stream c rid late p (SS (SWaiting rid) late, [])) as [E|E]; rewrite E; auto.
+    + destruct Hrel as [_ [a [Ht _]]]. subst task. unfold post_done. rewrite Hb. auto.
+  - cbn [step s_task s_late].
+    assert (F : only_key rid (s_late (fst (fail c rid late (-32000))))).
+    { intros k Hkk. unfold fail, abandon in Hkk. cbn [fst s_late] in Hkk. rewrite Hd in Hkk. simpl in Hkk. intuition. }
+    destruct ph; cbn [fst] in Hrel.
+    + subst task. auto.
+    + destruct Hrel as [_ [a [Ht _]]]. subst task. auto.
+    + subst task. auto.
+    + destruct Hrel as [_ [a [Ht _]]]. subst task. rewrite Hb. auto.
+    + destruct Hrel as [Ht _]. subst task. auto.
+  - cbn [step s_task s_late].
+    destruct ph; cbn [fst] in Hrel.
+    + subst task. auto.
+    + destruct Hrel as [_ [a [Ht _]]]. subst task. auto.
+    + subst task. auto.
+    + destruct Hrel as [_ [a [Ht _]]]. subst task. rewrite Hb. auto.
+    + destruct Hrel as [Ht _]. subst task. auto.
+  - unfold late_step in Hst. cbn [fst snd] in Hst.
+    destruct (same_key rid m) eqn:Esk.
+    + destruct (is_terminal rid m) eqn:Et; [|discriminate]. destruct ans; [discriminate|]. simpl in Hst.
+      cbn [step s_task s_late].
+      destruct ph; try discriminate; cbn [fst] in Hrel; cbn [andb is_done].
+      * subst task. rewrite Esk. unfold resolved_out. rewrite Hb. auto.
+      * subst task. rewrite Esk. unfold resolved_out. rewrite Hb. auto.
+      * destruct Hrel as [Ht Hh]. subst task. specialize (Hh eq_refl Hd).
+        assert (Hhit : late_hit c late m = true).
+        { unfold late_hit. rewrite Hd, (terminal_kind _ _ Et). simpl.
+          unfold is_terminal in Et. apply andb_prop in Et. destruct Et as [_ Ei].
+          destruct (m_id m) as [i|]; try discriminate. apply id_eqb_eq in Ei. subst i. auto. }
+        unfold not_pending. cbn [s_late s_task]. rewrite Hhit. cbn [fst snd s_late]. split; auto.
+        unfold forget. destruct (m_id m); auto. apply only_key_drop. auto.
+    + cbn [andb].
+      assert (Hmiss : late_hit c late m = false).
+      { destruct (late_hit c late m) eqn:E; auto. apply late_hit_key in E. destruct E as [k [Hkk Hm]].
+        apply Hl in Hkk. subst k. unfold msg_has_key in Hm. unfold same_key in Esk. congruence. }
+      assert (G : step c (SS task late) (ESse (Some m)) = (SS task late, [(FromSse, m)])).
+      { cbn [step s_task s_late]. unfold not_pending. cbn [s_late]. rewrite Hmiss.
+        destruct ph; cbn [fst] in Hrel.
+        - subst task. rewrite Esk. auto.
+        - destruct Hrel as [_ [a [Ht _]]]. subst task. auto.
+        - subst task. rewrite Esk. auto.
+        - destruct Hrel as [_ [a [Ht _]]]. subst task. auto.
+        - destruct Hrel as [Ht _]. subst task. auto. }
+      rewrite G. auto.
+  - cbn [step fst snd s_late]. auto.
+Qed.
+
+Lemma due_gen : forall c rid,
+  c_other_terminal c = true -> c_keep_id c = true -> c_drop_late c = true -> c_route_in_stream c = true ->
+  forall evs s ss s_end,
+  rel c rid s ss -> only_key rid (s_late ss) -> late_run rid s evs = Some s_end ->
+  stream_part (run c ss evs) = stream_due rid s evs.
+Proof.
+  intros c rid Ho Hk Hd Hb. induction evs as [|e evs IH]; intros s ss s_end Hrel Hl Hrun; auto.
+  cbn [late_run] in Hrun. destruct (late_step rid s e) as [s'|] eqn:Est; try discriminate.
+  cbn [run stream_due]. rewrite Est, stream_part_app.
+  destruct (step_due c rid Ho Hk Hd Hb s ss e s' Hrel Hl Est) as [L1 L2].
+  assert (Ha : true = true -> c_drop_late c = true) by auto.
+  rewrite <- late_step_g_true in Est.
+  destruct (step_sim c rid true Hk Ho Ha s ss e s' Hrel Est) as [R1 _].
+  rewrite L2. f_equal. eapply IH; eauto.
+Qed.
+
+Definition in_order_statement (c : cfg) : Prop :=
+  forall rid evs, sched_ok_late rid evs = true ->
+  stream_part (run c sinit (ESend (CReq rid) :: evs)) = stream_due rid late_init evs.
+
+Lemma in_order_full : forall c,
+  c_keep_id c = true -> c_other_terminal c = true -> c_drop_late c = true -> c_route_in_stream c = true ->
+  in_order_statement c.
+Proof.
+  intros c Hk Ho Hd Hb rid evs H. unfold sched_ok_late in H.
+  destruct (late_run rid late_init evs) as [s_end|] eqn:E; try discriminate.
+  unfold sinit. destruct (first_step c rid [] evs) as [R _]. rewrite R.
+  eapply due_gen; eauto.
+  - reflexivity.
+  - intros k Hkk. cbn [s_late] in Hkk. unfold unabandon in Hkk. destruct (c_drop_late c); simpl in Hkk; tauto.
+Qed.
+
+(** In the property's own environment (no late answer) "what is due" is simply
+    everything that was on the stream. *)
+Lemma stream_due_strict : forall rid evs ph ans s_end,
+  late_run_g false rid (ph, ans) evs = Some s_end ->
+  stream_due rid (ph, ans) evs = stream_msgs evs.
+Proof.
+  intros rid. induction evs as [|e evs IH]; intros ph ans s_end H; auto.
+  cbn [late_run_g] in H. destruct (late_step_g false rid (ph, ans) e) as [[ph' ans']|] eqn:E; try discriminate.
+  cbn [stream_due stream_msgs]. rewrite (late_step_g_weaken _ _ _ _ E).
+  destruct e as [| | | |[m|]]; simpl; try (eapply IH; eauto).
+  unfold late_step_g in E. cbn [fst] in E.
+  destruct (same_key rid m && is_done ph) eqn:Ed; [simpl in E; discriminate|].
+  simpl. f_equal. eapply IH; eauto.
+Qed.
+
+Lemma in_order_strict : forall c rid evs,
+  c_keep_id c = true -> c_other_terminal c = true -> c_drop_late c = true -> c_route_in_stream c = true ->
+  sched_ok rid evs = true ->
+  stream_part (run c sinit (ESend (CReq rid) :: evs)) = stream_msgs evs.
+Proof.
+  intros c rid evs Hk Ho Hd Hb H.
+  rewrite (in_order_full c Hk Ho Hd Hb rid evs (sched_ok_is_late _ _ H)).
+  unfold sched_ok in H. destruct (phase_run rid PhPosted evs) as [[]|] eqn:E; try discriminate.
+  destruct (strict_embeds rid evs PhPosted false eq_refl E) as [a' Ha'].
+  eapply stream_due_strict; eauto.
+Qed.
+
+Lemma in_order_full_both : forall c,
+  c_keep_id c = true -> c_other_terminal c = true -> c_drop_late c = true -> c_route_in_stream c = true ->
+  (forall rid evs, sched_ok_late rid evs = true ->
+     stream_part (run c sinit (ESend (CReq rid) :: evs)) = stream_due rid late_init evs) /\
+  (forall rid evs, sched_ok rid evs = true ->
+     stream_part (run c sinit (ESend (CReq rid) :: evs)) = stream_msgs evs).
+Proof. intros c Hk Ho Hd Hb. split. exact (in_order_full c Hk Ho Hd Hb). intros; apply in_order_strict; auto. Qed.
 
 (* ------------------------------------------------------------------ *)
 (** * (d) resources                                                    *)
@@ -581,58 +1091,78 @@ Definition w_rid := IdStr [114;49].                      (* "r1" *)
 Definition w_ans := Msg (Some w_rid) KRes 7.
 Definition w_notif := Msg None KNotif 8.
 
-(** Full-strength exactly-once, late answers included: not met (patched or not). *)
-Definition one_terminal_statement (c : cfg) : Prop :=
-  forall rid evs, sched_ok_late rid evs = true ->
-  count_terminals rid (run c SIdle (ESend (CReq rid) :: evs)) = 1%nat.
+(** 202, the timeout error is synthesised, then the answer arrives. *)
+Definition w_late : list ev := [EPost (PStatus 202 BNotJson); ETimeout; ESse (Some w_ans)].
+(** 202, then the answer and at once another event; the sender runs afterwards. *)
+Definition w_overtaken : list ev := [EPost (PStatus 202 BNotJson); ESse (Some w_ans); ESse (Some w_notif); EWake].
 
-Lemma one_terminal_refuted : forall c, ~ one_terminal_statement c.
+(** Full-strength exactly-once, late answers included: not met by any member
+    that does not remember the requests it has answered itself. *)
+Lemma one_terminal_refuted : forall c, c_drop_late c = false -> ~ one_terminal_statement c.
 Proof.
-  intros c H.
-  specialize (H w_rid [EPost (PStatus 202 BNotJson); ETimeout; ESse (Some w_ans)] eq_refl).
-  unfold count_terminals in H. destruct c as [a b c d e]. destruct b; vm_compute in H; discriminate.
+  intros c Hd H. destruct (H w_rid w_late [] eq_refl) as [H1 _]. clear H.
+  destruct c as [f1 f2 f3 f4 f5 f6 f7]. simpl in Hd. subst f6.
+  unfold count_terminals in H1.
+  destruct f1, f2, f3, f4, f5, f7; vm_compute in H1; discriminate.
 Qed.
 
-(** Full-strength ordering: everything that was on the stream reaches the read
-    stream in stream order.  Not met: an answer handed to the waiting sender is
-    overtaken by the next event. *)
-Definition on_stream (evs : list ev) (m : msg) : bool := existsb (msg_eqb m) (stream_msgs evs).
-
-Definition in_order_statement (c : cfg) : Prop :=
-  forall evs, filter (on_stream evs) (map snd (run c SIdle evs)) = stream_msgs evs.
-
-Lemma in_order_refuted : forall c, ~ in_order_statement c.
+(** Full-strength ordering: not met by any member that hands the answer to the
+    sender task (it is overtaken by the next event) ... *)
+Lemma in_order_refuted : forall c, c_route_in_stream c = false -> ~ in_order_statement c.
 Proof.
-  intros c H.
-  specialize (H [ESend (CReq w_rid); EPost (PStatus 202 BNotJson); ESse (Some w_ans); ESse (Some w_notif); EWake]).
-  vm_compute in H. discriminate.
+  intros c Hb H. specialize (H w_rid w_overtaken eq_refl).
+  destruct c as [f1 f2 f3 f4 f5 f6 f7]. simpl in Hb. subst f7.
+  destruct f1, f2, f3, f4, f5, f6; vm_compute in H; discriminate.
 Qed.
 
-(** HEAD (no patch applied), one witness per open defect. *)
-Lemma head_int_id_no_terminal :
-  count_terminals (IdInt 1) (run cfg_head SIdle [ESend (CReq (IdInt 1)); EPost (PStatus 202 BNotJson); ETimeout]) = 0%nat
+(** ... nor by one that delivers the late answer. *)
+Lemma in_order_refuted_late : forall c, c_drop_late c = false -> ~ in_order_statement c.
+Proof.
+  intros c Hd H. specialize (H w_rid w_late eq_refl).
+  destruct c as [f1 f2 f3 f4 f5 f6 f7]. simpl in Hd. subst f6.
+  destruct f1, f2, f3, f4, f5, f7; vm_compute in H; discriminate.
+Qed.
+
+(** /repo HEAD (the five earlier repairs in, the two proposed ones not): the
+    two open defects, and what the proposed patches make of the same inputs. *)
+Lemma head_late_answer_second_terminal :
+  sched_ok_late w_rid w_late = true /\
+  map snd (run cfg_head sinit (ESend (CReq w_rid) :: w_late)) = [Msg (Some w_rid) (KErr (-32000)) 0; w_ans] /\
+  map snd (run cfg_patched sinit (ESend (CReq w_rid) :: w_late)) = [Msg (Some w_rid) (KErr (-32000)) 0].
+Proof. repeat split; reflexivity. Qed.
+
+Lemma head_answer_overtaken :
+  sched_ok w_rid w_overtaken = true /\
+  stream_msgs w_overtaken = [w_ans; w_notif] /\
+  map snd (run cfg_head sinit (ESend (CReq w_rid) :: w_overtaken)) = [w_notif; w_ans] /\
+  map snd (run cfg_patched sinit (ESend (CReq w_rid) :: w_overtaken)) = [w_ans; w_notif].
+Proof. repeat split; reflexivity. Qed.
+
+(** The code before the five earlier repairs ([cfg_orig]), one witness each. *)
+Lemma orig_int_id_no_terminal :
+  count_terminals (IdInt 1) (run cfg_orig sinit [ESend (CReq (IdInt 1)); EPost (PStatus 202 BNotJson); ETimeout]) = 0%nat
   /\ sched_ok (IdInt 1) [EPost (PStatus 202 BNotJson); ETimeout] = true.
 Proof. split; reflexivity. Qed.
 
-Lemma head_other_status_no_terminal :
-  count_terminals w_rid (run cfg_head SIdle [ESend (CReq w_rid); EPost (PStatus 500 BInvalid)]) = 0%nat
+Lemma orig_other_status_no_terminal :
+  count_terminals w_rid (run cfg_orig sinit [ESend (CReq w_rid); EPost (PStatus 500 BInvalid)]) = 0%nat
   /\ sched_ok w_rid [EPost (PStatus 500 BInvalid)] = true.
 Proof. split; reflexivity. Qed.
 
 Definition w_base : str := [104;116;116;112;58;47;47;104].      (* "http://h" *)
 Definition w_nospace : str := s_event ++ s_endpoint ++ [10] ++ s_data ++ s_messages ++ [120] ++ [10;10].
                                                                    (* "event:endpoint\ndata:/messages/x\n\n" *)
-Lemma head_nospace_not_recognised :
-  snd (run_parser cfg_head w_base pinit [w_nospace]) = []
-  /\ snd (run_parser cfg_patched w_base pinit [w_nospace]) = [AEndpoint (w_base ++ s_messages ++ [120])].
+Lemma orig_nospace_not_recognised :
+  snd (run_parser cfg_orig w_base pinit [w_nospace]) = []
+  /\ snd (run_parser cfg_head w_base pinit [w_nospace]) = [AEndpoint (w_base ++ s_messages ++ [120])].
 Proof. split; reflexivity. Qed.
 
-Lemma head_exit_after_stream_end_hangs :
-  lp (life cfg_head [LAlloc; LStreamOpen; LEnterOk; LPendAdd; LWait; LSseEnds; LExit XNormal]) = LStuck
-  /\ r_out_task (lr (life cfg_head [LAlloc; LStreamOpen; LEnterOk; LPendAdd; LWait; LSseEnds; LExit XNormal])) = true.
+Lemma orig_exit_after_stream_end_hangs :
+  lp (life cfg_orig [LAlloc; LStreamOpen; LEnterOk; LPendAdd; LWait; LSseEnds; LExit XNormal]) = LStuck
+  /\ r_out_task (lr (life cfg_orig [LAlloc; LStreamOpen; LEnterOk; LPendAdd; LWait; LSseEnds; LExit XNormal])) = true.
 Proof. split; reflexivity. Qed.
 
-Lemma head_cancel_during_enter_leaks :
-  lp (life cfg_head [LAlloc; LStreamOpen; LEnterCancel]) = LClosed
-  /\ released (lr (life cfg_head [LAlloc; LStreamOpen; LEnterCancel])) = false.
+Lemma orig_cancel_during_enter_leaks :
+  lp (life cfg_orig [LAlloc; LStreamOpen; LEnterCancel]) = LClosed
+  /\ released (lr (life cfg_orig [LAlloc; LStreamOpen; LEnterCancel])) = false.
 Proof. split; reflexivity. Qed.
